@@ -43,12 +43,41 @@ class Obj:
         return "Obj_%s" % self.tag
 
 
+def _raise_through(exc, depth):
+    if depth:
+        _raise_through(exc, depth - 1)
+    raise exc
+
+
+def _raised(exc, depth=2):
+    """the exception after it has really been raised: it has a traceback whose entries are two or three physical lines"""
+    try:
+        _raise_through(exc, depth)
+    except BaseException as ex:
+        return ex
+
+
 def build_stack(s):
     err = None
-    if s.get("error") == "single":
+    kind = s.get("error")
+    if kind == "single":
         err = ValueError("er1")
-    elif s.get("error") == "group":
+    elif kind == "group":
         err = ExceptionGroup("erg", [ValueError("er1"), KeyError("er2")])
+    elif kind == "raised":
+        err = _raised(ValueError("er1"))
+    elif kind == "multiline":
+        err = ValueError("er1 first line\nsecond line\n\nfourth line")
+    elif kind == "group_raised":
+        err = _raised(ExceptionGroup("erg", [_raised(ValueError("er1\nmore"), 1), KeyError("er2")]))
+    elif kind == "chained":
+        try:
+            try:
+                _raise_through(KeyError("cause"), 1)
+            except KeyError as inner:
+                raise ValueError("er1") from inner
+        except ValueError as ex:
+            err = ex
     return Stack(root=s.get("root"), frames=[build_frame(f) for f in s["frames"]], leaf=s.get("leaf"), error=err)
 
 
@@ -136,6 +165,25 @@ def summ_list(s):
 
 
 def run_c19(req):
+    import sys
+    tbl = req["tree"].get("tblimit")
+    if tbl is None:
+        return _run_c19(req)
+    # an ambient interpreter setting that truncates tracebacks the standard library EXTRACTS; a summary built from
+    # the frames stackscope already has must not depend on it
+    had = hasattr(sys, "tracebacklimit")
+    old = getattr(sys, "tracebacklimit", None)
+    sys.tracebacklimit = tbl
+    try:
+        return _run_c19(req)
+    finally:
+        if had:
+            sys.tracebacklimit = old
+        else:
+            del sys.tracebacklimit
+
+
+def _run_c19(req):
     init()
     st = build_stack(req["tree"])
     out = {"summ": {}, "raised": None, "problems": []}
